@@ -201,7 +201,8 @@ def run_part1(case, ob, site):
         elif wf == 'not_a_wire':
             args[pos] = 3
         elif wf == 'reg_dest_for_w':
-            expect_static = None      # a Register destination for a non-'r' op is not excluded by the documentation
+            # a Register may only be written by a next ('r') op: with any other op the three simulators give the register
+            # three different meanings (found on the pinned tree, fixed in /repo c7ac00d)
             dests[0] = pyrtl.Register(4, 'badr')
             dests[0].bitwidth = symw('wdr')
         elif wf == 'nonreg_dest_for_r':
